@@ -4,6 +4,8 @@ import ast
 from ..model import AnalysisError
 from ..lib import (FV, decode_new, decode_call, phi_members, is_sym, is_const, is_str, strip_stores, stores_of,
                    find_assign, find_assigns, simple_assigns, local_term)
+from ..lib import (reached_iff, reached_implies, implies_reached, reached_iff_any, path_term, cond_equiv, cond_implies,  # noqa: F401
+                   else_stmts, branch_stmts, context_literals)
 from ..cfg import always_raises, walk_stmts
 from . import common as cm
 from . import geom
@@ -137,42 +139,35 @@ def d1_sel_convert(chk, repo):
            "a range must become slice(index of lower bound, index of upper bound + 1)", v.f, sl[0][0] if sl else None)
     loops = [s for s in v.stmts() if isinstance(s, ast.For)]
     okl = False
+    seq_t = None
     if len(loops) == 1:
         it = decode_call(v.ctx, v.term(loops[0].iter, at=loops[0]))
         if it and it[0] == "sorted" and len(it[1]) == 1:
-            # the sorted value is the one the enclosing branch identified as a sequence
-            for c_, pol in v.cfg.path_condition(loops[0]):
-                ct = decode_call(v.ctx, v.ev.term(c_, at=geom._if_stmt(v, c_)))
-                if pol and ct and ct[0] == "isinstance" and v.eq(ct[1][0], it[1][0]):
-                    okl = True
+            # the sorted value is the one that was identified as a sequence on the way to the loop (an enclosing
+            # `isinstance` branch or a survived `if not isinstance(...): raise` guard)
+            seq_t = it[1][0]
+            okl = reached_implies(v, loops[0], v.spec("isinstance(R, (tuple, list, np.ndarray))", env={"R": seq_t}))
     chk.ob("mesh.Mesh._sel_convert_input::bounds-sorted", okl, "C07.D1", "range bounds must be processed in sorted order", v.f)
-    # refusals
+    # refusals: the single value and every range bound outside [pmin[k], pmax[k]] raise ValueError (reached-iff: one guard
+    # with `or`, two guards, any nesting)
+    ves = [r_ for r_, nme in v.raises() if nme == "ValueError"]
     n_ref = 0
-    for r_, nme in v.raises():
-        par = v.cfg.parent.get(id(r_))
-        if nme == "ValueError" and par and isinstance(par[0], ast.If):
-            ct = v.ev.term(par[0].test, at=par[0])
-            hh = v.ctx.head_of(ct)
-            if hh and hh[0] == "or":
-                parts = v.ctx.args_of(ct)
-                lo = v.spec("self.region.pmin[k]", env={"k": di})
-                hi = v.spec("self.region.pmax[k]", env={"k": di})
-                def is_lt(p, a, b):
-                    hp = v.ctx.head_of(p)
-                    return bool(hp and hp[0] == "cmp" and hp[1] == "lt" and v.eq(v.ctx.args_of(p)[0], a) and v.eq(v.ctx.args_of(p)[1], b))
-                xs = []
-                for p in parts:
-                    hp = v.ctx.head_of(p)
-                    if hp and hp[0] == "cmp" and hp[1] == "lt":
-                        a, b = v.ctx.args_of(p)
-                        if v.eq(b, lo):
-                            xs.append(("below", a))
-                        if v.eq(a, hi):
-                            xs.append(("above", b))
-                if len(xs) == 2 and {x[0] for x in xs} == {"below", "above"} and v.eq(xs[0][1], xs[1][1]):
-                    n_ref += 1
+    if seq_t is not None:
+        lo = v.spec("self.region.pmin[k]", env={"k": di})
+        hi = v.spec("self.region.pmax[k]", env={"k": di})
+        R = seq_t
+        single = v.spec("R is not None and isinstance(R, numbers.Real) and (R < lo or R > hi)", env={"R": R, "lo": lo, "hi": hi})
+        if reached_iff_any(v, ves, single):
+            n_ref += 1
+        E = v.ctx.mk(("iter", ()), (v.term(loops[0].iter, at=loops[0]),))
+        inloop = [r_ for r_ in ves if any(p_ is loops[0] for p_, f_ in v.cfg.enclosing(r_))]
+        per_bound = v.spec("E < lo or E > hi", env={"E": E, "lo": lo, "hi": hi})
+        own_loop = path_term(v, loops[0])
+        if inloop and reached_iff_any(v, inloop, v.ev._bool("and", [own_loop, per_bound])):
+            n_ref += 1
     chk.ob("mesh.Mesh._sel_convert_input::outside-refused", n_ref >= 2, "C07.D1",
-           f"{n_ref} refusal(s) of the form `x < pmin[k] or x > pmax[k]` found; the single value and every range bound need one", v.f)
+           f"{n_ref} of 2 refusals found: a single value and every range bound x with `x < pmin[k] or x > pmax[k]` must raise "
+           "ValueError, exactly then", v.f)
 
 
 # ------------------------------------------------------------------ D2
@@ -652,30 +647,31 @@ def d8_wiring_and_dispatch(chk, repo):
     for cond, exc, key in (("len(args) > 1 or len(kwargs) > 1", "ValueError", "one-dimension-at-a-time"),):
         ok, det = s.guard(cond, exc=(exc,))
         chk.ob(f"mesh.Mesh._sel_convert_input::{key}", ok, "C07.D8", det, s.f)
-    chain = [st for st in s.body if isinstance(st, ast.If) and not always_raises(st.body)]
-    okd = False
-    if chain:
-        from .c01 import _branch_conditions
-        conds, tail = _branch_conditions(s, chain[0])
-        okd = len(conds) == 2 and s.eq(conds[0][0], s.spec("args and (not kwargs)")) and \
-            s.eq(conds[1][0], s.spec("(not args) and kwargs")) and always_raises(tail)
+    pos_t, kw_t = s.spec("args and (not kwargs)"), s.spec("(not args) and kwargs")
+    takes_pos = [st for st in s.stmts() if isinstance(st, ast.Assign) and s.eq(s.term(st.value, at=st), s.spec("args[0]"))]
+    takes_kw = [st for st in s.stmts() if isinstance(st, ast.Assign) and s.eq(s.term(st.value, at=st), s.spec("list(kwargs.items())[0]"))]
+    ves8 = [r_ for r_, n_ in s.raises() if n_ == "ValueError"]
+    okd = len(takes_pos) == 1 and len(takes_kw) == 1 and reached_iff(s, takes_pos[0], pos_t) and reached_iff(s, takes_kw[0], kw_t) \
+        and bool(reached_iff_any(s, ves8, s.ev._bool("and", [s.ev._not(pos_t), s.ev._not(kw_t)])))
     chk.ob("mesh.Mesh._sel_convert_input::positional-xor-keyword", okd, "C07.D8",
            "either one positional dimension or one keyword (dimension=value) - anything else raises ValueError", s.f)
     rng = None
     for st in s.stmts():
         if isinstance(st, ast.If):
             ct = s.ev.term(st.test, at=st)
+            hd = s.ctx.head_of(ct)
+            if hd and hd[0] == "not":
+                ct = s.ctx.args_of(ct)[0]
             c = decode_call(s.ctx, ct)
-            if c and c[0] == "isinstance" and is_sym(s.ctx, c[1][1], "numbers.Real") and not always_raises(st.body):
+            if c and c[0] == "isinstance" and is_sym(s.ctx, c[1][1], "numbers.Real") and c[1][0].single_atom() is not None \
+                    and s.ctx.head_of(c[1][0])[0] in ("phi", "unpack", "sym"):
                 rng = (st, c[1][0])
     okr = False
     if rng:
-        from .c01 import _branch_conditions
-        conds, tail = _branch_conditions(s, rng[0])
-        okr = len(conds) == 2 and s.eq(conds[1][0], s.spec("isinstance(R, (tuple, list, np.ndarray))", env={"R": rng[1]})) and \
-            always_raises(tail)
         R = rng[1]
-        ok2 = geom._guard_in_function_env(s, "len(R) != 2", {"R": R}) if hasattr(geom, "_guard_in_function_env") else None
+        tes8 = [r_ for r_, n_ in s.raises() if n_ == "TypeError"]
+        okr = bool(reached_iff_any(s, tes8, s.spec("R is not None and not isinstance(R, numbers.Real) and "
+                                                   "not isinstance(R, (tuple, list, np.ndarray))", env={"R": R})))
     chk.ob("mesh.Mesh._sel_convert_input::value-kinds", okr, "C07.D8",
            "the selection value is a real number (plane) or a tuple/list/array (range); anything else raises TypeError", s.f)
     if rng:
